@@ -1,5 +1,6 @@
 import abc
 import asyncio
+import contextlib
 import copy
 import csv
 import importlib
@@ -52,6 +53,18 @@ def _test_ipython_interpretor() -> bool:
 
     except NameError:
         return False  # Probably standard Python interpreter
+
+
+@contextlib.contextmanager
+def open_then_replace(path):
+    """Open a temporary file for writing and move it to ``path`` once it is written and closed.
+
+    A process killed at any time leaves either the previous content of ``path`` or the new one.
+    """
+    path_tmp = f"{path}.tmp"
+    with open(path_tmp, "w") as fp:
+        yield fp
+    os.replace(path_tmp, path)
 
 
 class Evaluator(abc.ABC):
@@ -720,32 +733,36 @@ class Evaluator(abc.ABC):
             resultsList.append(result)
 
         if len(resultsList) != 0:
-            mode = "a" if self._start_dumping else "w"
+            if not (self._start_dumping):
+                for result in resultsList:
+                    # Waiting to start receiving non-failed jobs before dumping results
+                    is_single_obj_and_has_success = (
+                        "objective" in result and type(result["objective"]) is not str
+                    )
+                    is_multi_obj_and_has_success = (
+                        "objective_0" in result and type(result["objective_0"]) is not str
+                    )
+                    if is_single_obj_and_has_success or is_multi_obj_and_has_success or flush:
+                        self._columns_dumped = result.keys()
 
-            with open(os.path.join(log_dir, filename), mode) as fp:
-                if not (self._start_dumping):
-                    for result in resultsList:
-                        # Waiting to start receiving non-failed jobs before dumping results
-                        is_single_obj_and_has_success = (
-                            "objective" in result and type(result["objective"]) is not str
-                        )
-                        is_multi_obj_and_has_success = (
-                            "objective_0" in result and type(result["objective_0"]) is not str
-                        )
-                        if is_single_obj_and_has_success or is_multi_obj_and_has_success or flush:
-                            self._columns_dumped = result.keys()
+                        break
 
-                            break
+            # The file is only touched when there is something to write, and it is created with
+            # its header and first rows at once so that it is never seen empty
+            if self._columns_dumped is not None:
+                path = os.path.join(log_dir, filename)
+                opener = open(path, "a") if self._start_dumping else open_then_replace(path)
 
-                if self._columns_dumped is not None:
+                with opener as fp:
                     writer = csv.DictWriter(fp, self._columns_dumped, extrasaction="ignore")
 
                     if not (self._start_dumping):
                         writer.writeheader()
-                        self._start_dumping = True
 
                     writer.writerows(resultsList)
-                    self.jobs_done = []
+
+                self._start_dumping = True
+                self.jobs_done = []
 
     def dump_evals(self, log_dir: str = ".", filename="results.csv", flush: bool = False):
         deprecated_api(
